@@ -369,6 +369,11 @@ def run(ctx):
         text = None
     # stage P
     proofs_ok = ctx.proofs() if text is not None else False
+    # extension: the decisions of the emission path translated from the AST (gen/G06_exit.v), theorems in props/C06x.v
+    from tools.checks import c06_exit
+    xtext = c06_exit.translate(ctx)
+    if xtext is not None and text is not None:
+        ctx.proofs(part="C06x")
     ctx.coverage["trusted_base"] = [
         "Coq 8.16.1 kernel (coqc, vm_compute); no axioms (Print Assumptions: closed)",
         "translator tools/tr/tr_expr.py + tr_datachecker.py (Python ast -> Gallina)",
@@ -506,9 +511,12 @@ def run(ctx):
                       json.dumps({"flags": hist_meta[i][0], "ops": ops_json(hist_meta[i][1]), "impl": hist_cases[i][1][:500]}))
         ctx.coverage["traces_validated_against_impl"] += len(hist_cases) - len(mism)
     loop.close()
+    c06_exit.stage(ctx, text=xtext if text is not None else None)
     ctx.coverage["rule"] = ("classifier: exhaustive 2-byte sweeps at the inspected offsets x lengths x flag sets, plus generated "
                             "shaped/junk payloads; histories: random op sequences (exit data, transports created, DNS resolved, "
-                            "outside datagram) incl. queue overflow; non-trivial = payload longer than 1 byte / history with >= 1 emission")
+                            "outside datagram) incl. queue overflow and textual look-alike source addresses, evaluated against the hand model and "
+                            "against the model generated from the source's decisions; non-trivial = payload longer than 1 byte / "
+                            "history with >= 1 emission")
     ctx.coverage["exhaustive"] = False
 
 
@@ -542,7 +550,10 @@ def replay(path):
     asyncio.set_event_loop(loop)
     for v in js.get("violations", []):
         c = v["case"]
-        if c["kind"] == "cls":
+        if c["kind"] == "histx":
+            from tools.checks import c06_exit
+            rc |= c06_exit.replay_case(c)
+        elif c["kind"] == "cls":
             from ipv8.messaging.anonymization import exit_socket as es
             d = bytes.fromhex(c["data"])
             pfx = bytes.fromhex(c["prefix"])
